@@ -42,7 +42,7 @@ pub struct Case {
     pub err_at: Option<(usize, u8)>,
     /// things done to the Framed between polls, none of which may change what it yields:
     /// (before poll number n, what): 0 = into_parts + from_parts, 1 = into_map_io(identity),
-    /// 2 = into_map_codec(identity), 3 = close the write half (flush + shutdown of the transport's
+    /// 2 = into_map_codec(identity), 4 = replace_codec(equal codec), 3 = close the write half (flush + shutdown of the transport's
     /// write direction; the peer keeps sending)
     #[serde(default)]
     pub between: Vec<(u16, u8)>,
@@ -202,7 +202,7 @@ struct Run {
 
 fn drive<D>(codec: D, c: &Case, err: Option<(usize, io::ErrorKind)>, want_items: usize, ends: bool) -> Result<Run, vcore::Fail>
 where
-    D: Decoder<Error = io::Error> + Unpin + CloseWrite,
+    D: Decoder<Error = io::Error> + Unpin + CloseWrite + Clone,
     D::Item: ToItem,
 {
     // the injected error comes after at least one byte delivered by the transport: preloaded bytes
@@ -230,10 +230,16 @@ where
             }
             // mid-stream: frames are still to come (some of them usually sit in the read buffer)
             let buffered = run.none_seen == 0 && run.items.len() < want_items && run.polls > 1;
-            match what % 4 {
+            match what % 5 {
                 0 => framed = Framed::from_parts(framed.into_parts()),
                 1 => framed = framed.into_map_io(|io| io),
                 2 => framed = framed.into_map_codec(|c| c),
+                4 => {
+                    // replace_codec with an equal codec (same decoder state): the read buffer and
+                    // the readable / end-of-stream state travel with the Framed
+                    let codec = framed.codec_ref().clone();
+                    framed = framed.replace_codec(codec);
+                }
                 _ => {
                     let r = D::close_write(Pin::new(&mut framed), &mut cx);
                     vensure!(matches!(r, Poll::Ready(Ok(()))), "C13/close-failed", "closing the write half of an idle Framed returned {:?}", r.map(|x| x.map_err(|e| e.kind())));
@@ -446,7 +452,7 @@ pub fn strategy(long: bool) -> impl Strategy<Value = Case> {
     prop::sample::select(if long { vec![Codec::LenU16, Codec::LenU16, Codec::Lines, Codec::Lines, Codec::Bytes, Codec::LenU8] } else { vec![Codec::LenU8, Codec::LenU16, Codec::Lines, Codec::Bytes] })
         .prop_flat_map(move |codec| {
             let stream = if long { stream_for(codec, true) } else { prop_oneof![3 => stream_for(codec, false), 1 => raw_stream().boxed()].boxed() };
-            (Just(codec), stream, script(long), prop::option::weighted(0.35, (any::<u16>(), 0u8..6)), prop::collection::vec((1u16..14, 0u8..4), 0..3), prop_oneof![3 => Just(0u16), 1 => 1u16..40, 1 => prop::sample::select(vec![1023u16, 1024, 8191, 8192, 8193, 20000])], prop_oneof![2 => Just(0u8), 1 => Just(1u8), 1 => Just(2u8)], prop_oneof![4 => Just(0u8), 1 => Just(1u8), 1 => 2u8..8])
+            (Just(codec), stream, script(long), prop::option::weighted(0.35, (any::<u16>(), 0u8..6)), prop::collection::vec((1u16..14, 0u8..5), 0..3), prop_oneof![3 => Just(0u16), 1 => 1u16..40, 1 => prop::sample::select(vec![1023u16, 1024, 8191, 8192, 8193, 20000])], prop_oneof![2 => Just(0u8), 1 => Just(1u8), 1 => Just(2u8)], prop_oneof![4 => Just(0u8), 1 => Just(1u8), 1 => 2u8..8])
         })
         .prop_map(|(codec, stream, script, e, between, preload, read_style, trickle)| {
             let err_at = e.map(|(at, k)| (vcore::pick(at, stream.len() + 1), k));
@@ -476,7 +482,7 @@ pub fn case_from_bytes(data: &[u8]) -> Case {
     Case { codec, stream, script, err_at, between, preload, read_style: e % 3, trickle }
 }
 
-const RULE: &str = "(codec in {u8-length-prefixed with default decode_eof, u16-length-prefixed with stateful decode_eof, LinesCodec, BytesCodec}, byte stream built from frames of boundary-rich sizes (part framed-read-long: up to 20 KB, now and then 40..140 KB) plus truncation/junk or raw delimiter-rich bytes, read script of chunk sizes and Pendings (after which the transport delivers everything, or trickles 1..7 bytes per always-ready read), a transport that fills the ReadBuf with put_slice or with the adapter idiom initialize_unfilled + advance(n) (initialises more than it fills), optional one I/O error at a byte offset, and up to two things done to the Framed between polls that must not change what it yields: into_parts+from_parts / into_map_io / into_map_codec / closing its write half while the peer keeps sending; optionally the first bytes of the stream are already in the read buffer the Framed is built from (FramedParts::with_read_buf)) run through Framed::poll_next on a scripted AsyncRead with a fresh waker per poll, compared item by item with a fresh codec decoding the whole stream at once; non-trivial = >=2 frames with a chunk boundary or Pending inside the stream, or stream > 8 KiB; distinct by the whole case";
+const RULE: &str = "(codec in {u8-length-prefixed with default decode_eof, u16-length-prefixed with stateful decode_eof, LinesCodec, BytesCodec}, byte stream built from frames of boundary-rich sizes (part framed-read-long: up to 20 KB, now and then 40..140 KB) plus truncation/junk or raw delimiter-rich bytes, read script of chunk sizes and Pendings (after which the transport delivers everything, or trickles 1..7 bytes per always-ready read), a transport that fills the ReadBuf with put_slice or with the adapter idiom initialize_unfilled + advance(n) (initialises more than it fills), optional one I/O error at a byte offset, and up to two things done to the Framed between polls that must not change what it yields: into_parts+from_parts / into_map_io / into_map_codec / replace_codec(an equal codec) / closing its write half while the peer keeps sending; optionally the first bytes of the stream are already in the read buffer the Framed is built from (FramedParts::with_read_buf)) run through Framed::poll_next on a scripted AsyncRead with a fresh waker per poll, compared item by item with a fresh codec decoding the whole stream at once; non-trivial = >=2 frames with a chunk boundary or Pending inside the stream, or stream > 8 KiB; distinct by the whole case";
 
 pub fn run(ctx: &Ctx) {
     ctx.assume("test codecs are prefix-consistent (decode on a longer buffer yields the same leading frames), as LinesCodec and length-prefixed codecs are; BytesCodec is judged by concatenation only");
